@@ -406,6 +406,15 @@ class Partial:
         self.kwargs = dict(kwargs or {})
 
 
+class SuperProxy:
+    """zero-argument super(): attribute lookup continues after `cls` in the MRO of the instance's class"""
+    __slots__ = ('self_val', 'cls')
+
+    def __init__(self, self_val, cls):
+        self.self_val = self_val
+        self.cls = cls
+
+
 class Snapshot:
     """read-only view of an object in an earlier heap (the `old` of a postcondition)"""
     __slots__ = ('heap', 'ref')
